@@ -204,11 +204,28 @@ def dip_atom_phase(package_dir):
     return s
 
 
+def chain_molecules(package_dir):
+    """dipoles/atom_factors.ini with straight chains of six point masses instead of dipoles (index lists of the
+    factor file reach two digits for the second molecule); the factor file is generated per scenario."""
+    s = scenario_module.load_ini(package_dir, "2018_JCP_149_064113/dipoles/atom_factors.ini")
+    s["InputOutputHandler"]["input_handler"] = "lattice_input_handler"
+    s.pop("RandomInputHandler", None)
+    s.pop("DipoleRandomNodeCreator", None)
+    s["LatticeInputHandler"] = {"number_of_root_nodes": "2", "nodes_per_root_node": "6", "jitter": "0.05",
+                                "dipole_separation": "0.1",
+                                "charge_values": "electric_charge_values (charge_values)"}
+    s["ElectricChargeValues"]["charge_values"] = "1, -1, 1, -1, 1, -1"
+    s["FactorTypeMaps"]["filename"] = "@generated:" + ";".join(
+        ["[%d, %d], Harmonic" % (k, k + 1) for k in range(5)] + ["[0, 6], Repulsive", "[5, 11], Coulomb"])
+    s["FinalTimeEndOfRunEventHandler"]["end_of_run_time"] = "50"
+    return s
+
+
 BUILDERS = {"soft_spheres": soft_spheres, "lj_atoms": lj_atoms, "hard_spheres": hard_spheres,
             "hard_disks": hard_disks, "hard_disk_dipoles": hard_disk_dipoles,
             "hard_disk_dipoles_cells": hard_disk_dipoles_cells, "cuboid_hard_cells": cuboid_hard_cells,
             "cuboid_soft": cuboid_soft, "water_motion": water_motion, "dip_atom_phase": dip_atom_phase,
-            "soft_disks": soft_disks}
+            "soft_disks": soft_disks, "chain_molecules": chain_molecules}
 
 
 def build(package_dir, name):
